@@ -227,6 +227,7 @@ func checkC03(c *Check) {
 
 	// ---- R7: no extra rejections
 	c03R7(c, R, m)
+	optionalNonceRule(c, "C03.R7", R)
 	// the code-for-token request must reach the provider as it was built (C04.R2's transport rule)
 	transportPreservesRequest(c, "C03.R5")
 	// a redirect answer keeps its own Location and cookie until it is sent (no shared header backing array)
@@ -335,6 +336,7 @@ func checkC03(c *Check) {
 			}
 		}
 		c.Obl(okFold, "C03.R5", "token-type/"+fnKey(v), P.Pos(v.Pos()), "token_type compared with strings.EqualFold(…, \"Bearer\")", "token_type is not compared case-insensitively with \"Bearer\" in "+fnKey(v))
+		tokenTypeDecisive(c, "C03.R5", v)
 		// expires_in: only negative values rejected
 		okExp := true
 		for _, vf := range deepFuncs(v, 2) {
@@ -402,6 +404,10 @@ func checkC11(c *Check) {
 	c.Rule("C11.R4", "outcome: a nil result leads to the login redirect with the presented session id (which removes the stale session: C05.R1); a non-nil result is stored under the same session id and that same object is the one allowed.", 3)
 	c.Rule("C11.R5", "expiry test: the refresh is attempted exactly when a required token has expired — every `not expired` return of the expiry test is dominated by a successful parse of the stored ID token and by the false outcome of IDToken.Expiration().Before(clock.Now()); the access-token clause can only add `expired` outcomes (the rule C01.R4: an expiry test that overlooks the ID token never triggers the refresh).", 2)
 	refile(c, "C11.R5", func() { c01R4(c, R) })
+	optionalNonceRule(c, "C11.R3", R)
+	for _, v := range idpValidators(R) {
+		tokenTypeDecisive(c, "C11.R3", v)
+	}
 	if !requireModel(c, "C11.R1", m, "refresh.") {
 		return
 	}
@@ -1080,4 +1086,37 @@ func loopExitOverAudience(P *Program, R *Roles, v *ssa.Function, cond ssa.Value)
 		}
 	}
 	return false
+}
+
+// tokenTypeDecisive: in the IdP-response validator v no accepting return is reachable without the token_type
+// comparison having answered true. Filed under C03.R5 and C11.R3.
+func tokenTypeDecisive(c *Check, rule string, v *ssa.Function) {
+	P := c.P
+		// … and the comparison is decisive: every accepting return of the function that holds the comparison lies
+		// behind the EqualFold call and is unreachable when it answered false (an answer without token_type, or
+		// with another type, is not accepted — `tokenType != "" && !EqualFold(…)` would let an error document
+		// that happens to be served with status 200 pass as a token response)
+		for _, ci := range callsToDeep(v, 2, "strings.EqualFold") {
+			cc, isCall := ci.(*ssa.Call)
+			if !isCall || !(depFields(cc.Common().Args[0])["TokenType"] || depFields(cc.Common().Args[1])["TokenType"]) {
+				continue
+			}
+			hf := cc.Parent()
+			accepting := func(i ssa.Instruction) bool {
+				r, ok := i.(*ssa.Return)
+				if !ok || len(r.Results) != 1 {
+					return false
+				}
+				b, isC := constBool(r.Results[0])
+				return !isC || b
+			}
+			decisive := existsPath(hf, atomEnv{cc: false}, accepting, nil) == nil
+			for _, r := range returnsOf(hf) {
+				if accepting(r) && !mustPassBefore(hf, r, func(i ssa.Instruction) bool { return i == ssa.Instruction(cc) }) {
+					decisive = false
+				}
+			}
+			c.Obl(decisive, rule, "token-type-decisive/"+fnKey(v), P.Pos(cc.Pos()), "no accepting return without token_type having been found to be Bearer",
+				"an accepting return of "+fnKey(hf)+" is reachable without the token_type comparison having answered true (a missing token_type is accepted)")
+		}
 }
